@@ -205,3 +205,42 @@ Proof. intros Hs Hv Hc Wf Hg.
   rewrite R. set (w := run (set_state v (N.lxor (state v) g)) (repeat false n)) in *.
   destruct F as [F1 [F2 [F3 [F4 [F5 F6]]]]]. unfold fresh_lock. cbn [set_state synced state sync_count history hist_count hist_pos err_count].
   rewrite F2, N.lxor_0_l. repeat split; assumption. Qed.
+
+(** * the invariant of every state reachable through the API: the hypotheses of the theorems above cover them all,
+      and every history access is inside the 16-byte array *)
+Definition reach_inv (v : prbs) : Prop :=
+  length (history v) = 16%nat /\ hist_pos v < 128 /\ state v < 512 /\ sync_count v <= 17.
+
+Lemma reach_inv_new h : length h = 16%nat -> reach_inv (prbs_new h).
+Proof. intros H. unfold reach_inv, prbs_new. cbn [history hist_pos state sync_count].
+  split; [exact H|]. split; [reflexivity|]. split; [reflexivity|]. cbv. discriminate. Qed.
+Lemma reach_inv_reset v : reach_inv (prbs_reset v).
+Proof. unfold reach_inv, prbs_reset. cbn [history hist_pos state sync_count].
+  split; [reflexivity|]. split; [reflexivity|]. split; [reflexivity|]. cbv. discriminate. Qed.
+Lemma reach_inv_generate v : reach_inv v -> reach_inv (fst (prbs_generate v)).
+Proof. intros [A [B [C D]]]. unfold reach_inv, prbs_generate. cbn [fst history hist_pos state sync_count].
+  repeat split; try assumption. apply shift_in_lt. Qed.
+
+Lemma reach_inv_validate v b : reach_inv v -> reach_inv (fst (prbs_validate v b)).
+Proof. intros [A [B [C D]]]. destruct (synced v) eqn:S.
+- unfold prbs_validate. rewrite S. cbn [negb]. unfold prbs_generate, prbs_count_errors.
+  cbn [fst state synced sync_count bit_count err_count history hist_count hist_pos].
+  rewrite (hpos_inc (hist_pos v) B).
+  change ConstsPrbs.prbs_hist_len with 128. change ConstsPrbs.prbs_hist_wrap_to with 0.
+  assert (P : (if hist_pos v + 1 =? 128 then 0 else hist_pos v + 1) < 128) by (destruct (hist_pos v + 1 =? 128) eqn:Q; lia).
+  destruct (xorb b (taps (state v))); unfold reach_inv; cbn [history hist_pos state sync_count]; rewrite upd_length;
+    repeat split; try assumption; apply shift_in_lt.
+- rewrite (validate_unsynced v b S). cbn [fst]. unfold sync_step.
+  destruct (xorb b (taps (state v))).
+  + unfold reach_inv. cbn [history hist_pos state sync_count]. repeat split; try assumption; try apply shift_in_lt. lia.
+  + destruct (w_sync (sync_count v + 1) =? ConstsPrbs.prbs_LOCK_COUNT) eqn:Q.
+    * unfold reach_inv, locked_at. cbn [history hist_pos state sync_count].
+      split; [reflexivity|]. split; [reflexivity|]. split; [apply shift_in_lt|]. cbv. discriminate.
+    * unfold reach_inv. cbn [history hist_pos state sync_count]. repeat split; try assumption; try apply shift_in_lt.
+      unfold w_sync, wrap in *. change ConstsPrbs.prbs_sync_count_bits with 8 in *. change (2 ^ 8) with 256 in *.
+      change ConstsPrbs.prbs_LOCK_COUNT with 18 in Q.
+      rewrite N.mod_small in * by lia. lia. Qed.
+
+Lemma reach_inv_index v : reach_inv v ->
+  (N.to_nat (N.shiftr (hist_pos v) ConstsPrbs.prbs_hist_byte_shift) < length (history v))%nat.
+Proof. intros [A [B _]]. rewrite A. change ConstsPrbs.prbs_hist_byte_shift with 3. apply (pos_split _ B). Qed.
